@@ -39,3 +39,92 @@ Definition recovers_b (c : dstore) (t : Z) (sh : shape) : bool :=
                 && Nat.eqb (length (links (d_st d2))) (S (length (links (d_st d1))))
   | _, _ => false
   end.
+
+(** ---- the property evaluated on an OBSERVED store ------------------------------------
+
+    Used by the crash replay when a recovered store is judged directly (not via
+    the model's crash states).  [dA] is the state after every ACKNOWLEDGED
+    operation of the workload (all of them are complete: a client sends the
+    next command only after the reply); the operations of the one client
+    command in flight may be wholly applied, partly applied or absent;
+    [cands] = the states after 0, 1, ... of them wholly applied, [dL] = the last.
+
+    (c) acknowledged work is in effect:
+      - a mailbox the recovered store lists holds every link it held in [dA],
+        except links the command in flight removes from that same mailbox
+        (EXPUNGE, a move) — if the command in flight removes or renames the
+        mailbox itself ([dL] does not have the name) and the mailbox is still
+        listed, the command has not been applied to it and ALL its links must
+        be there ([lost_links]);
+      - a message linked in [dA] and still linked after the command in flight
+        is linked somewhere in the recovered store ([lost_msgs]);
+      - a mailbox of [dA] that the command in flight keeps is listed ([lost_mailboxes]).
+    (b) every listed message is complete: same number of header / part rows
+        as the writer intended ([incomplete]).
+    nothing invented: every recovered link is a link of one of [cands] ([phantom]). *)
+
+Definition okey := (Z * Z * Z)%type.           (* mailbox row id, uid, message id *)
+Record obs := mkObs { o_names : list (Z * str); o_links : list okey; o_msgs : list (Z * Z * Z) }.
+
+Definition links_named (s : store) (n : str) : list link :=
+  filter (fun l => match find_id s (lk_mbox l) with
+                   | Some m => str_eqb (mb_name m) n
+                   | None => false
+                   end) (links s).
+
+Definition obs_has (o : obs) (n : str) (uid msg : Z) : bool :=
+  existsb (fun k => let '(mb, u, m) := k in
+                    (u =? uid) && (m =? msg)
+                    && existsb (fun im => (fst im =? mb) && str_eqb (snd im) n) (o_names o)) (o_links o).
+
+Definition same_um (l l' : link) : bool := (lk_uid l' =? lk_uid l) && (lk_msg l' =? lk_msg l).
+
+Definition lost_links (dA dL : dstore) (o : obs) : list okey :=
+  flat_map (fun im =>
+     let n := snd im in
+     let must := if is_some (find_name (d_st dL) n)
+                 then filter (fun l => existsb (same_um l) (links_named (d_st dL) n)) (links_named (d_st dA) n)
+                 else links_named (d_st dA) n in
+     map (fun l => (lk_mbox l, lk_uid l, lk_msg l))
+         (filter (fun l => negb (obs_has o n (lk_uid l) (lk_msg l))) must))
+   (o_names o).
+
+Definition lost_msgs (dA dL : dstore) (o : obs) : list Z :=
+  filter (fun m => existsb (fun l => lk_msg l =? m) (links (d_st dL))
+                   && negb (existsb (fun k => snd k =? m) (o_links o)))
+         (map lk_msg (links (d_st dA))).
+
+Definition lost_mailboxes (dA dL : dstore) (o : obs) : list Z :=
+  map mb_id (filter (fun m => is_some (find_name (d_st dL) (mb_name m))
+                              && negb (existsb (fun im => str_eqb (snd im) (mb_name m)) (o_names o)))
+                    (mboxes (d_st dA))).
+
+Definition model_has (d : dstore) (n : str) (uid msg : Z) : bool :=
+  existsb (fun l => (lk_uid l =? uid) && (lk_msg l =? msg)) (links_named (d_st d) n).
+
+Definition phantom (cands : list dstore) (o : obs) : list okey :=
+  filter (fun k => let '(mb, u, m) := k in
+                   negb (existsb (fun im => (fst im =? mb)
+                                            && existsb (fun d => model_has d (snd im) u m) cands) (o_names o)))
+         (o_links o).
+
+Definition incomplete (dL : dstore) (o : obs) : list Z :=
+  filter (fun m => match find (fun r => m_id r =? m) (d_msgs dL) with
+                   | None => false
+                   | Some r => negb (existsb (fun t => let '(i, h, p) := t in
+                                       (i =? m) && (h =? Z.of_nat (sh_hdr (m_want r)))
+                                       && (p =? Z.of_nat (length (sh_parts (m_want r))))) (o_msgs o))
+                   end)
+         (map (fun k => snd k) (o_links o)).
+
+Definition crash_spec_b (dA dL : dstore) (cands : list dstore) (o : obs) : bool :=
+  match lost_links dA dL o, lost_msgs dA dL o, lost_mailboxes dA dL o, phantom cands o, incomplete dL o with
+  | [], [], [], [], [] => true
+  | _, _, _, _, _ => false
+  end.
+
+(** the observation a model state would give *)
+Definition obs_of (d : dstore) : obs :=
+  mkObs (map (fun m => (mb_id m, mb_name m)) (mboxes (d_st d)))
+        (map (fun l => (lk_mbox l, lk_uid l, lk_msg l)) (links (d_st d)))
+        (map (fun r => (m_id r, Z.of_nat (m_hdr r), Z.of_nat (m_parts r))) (d_msgs d)).
